@@ -205,8 +205,18 @@ func execBufConc(t *trace, script []string) {
 				for _, o := range m {
 					rel = append(rel, o-off)
 				}
-				k := cleaner(l, rel)
-				return k > 0 && l > 0
+				// C04's premise: every OPEN consumer has committed past a prefix.  (A consumer left behind by a forced
+				// trim of FixedBufferCleaner has not; what the configured cleaner would do then is not part of the claim.)
+				if len(rel) == 0 || l == 0 {
+					return false
+				}
+				k := rel[0]
+				for _, o := range rel {
+					if o < k {
+						k = o
+					}
+				}
+				return k > 0
 			}
 			deadline := time.Now().Add(time.Duration(cooldown)*3*time.Microsecond + 2*time.Second)
 			for reclaimable() && time.Now().Before(deadline) {
